@@ -111,6 +111,9 @@ def classify_real(indict):
 
 
 def case_validate(case):
+    # earlier calls in the same process (their outcome is irrelevant): acceptance of an entry must not depend on them
+    for pre in case.get("pre_calls", []):
+        classify_real(pre)
     return classify_real(case["indict"])
 
 
@@ -152,6 +155,21 @@ def run(ctx, driver):
                 dyn = [bad, other] if pos == 0 else [other, bad]
                 cases.append({"indict": {"dynamics": dyn}, "kind": kind, "expect": expect, "order": order, "pos": pos})
         cases.append({"indict": {"dynamics": [entry], "options": {"no_such_option": "1"}}, "kind": "unknown-option", "expect": "any-error", "order": order, "pos": 0, "skip_model": True})
+    # well-formed entries whose variable carries a name that an EARLIER call of the same process used as the value of a
+    # symbol-valued option: a conforming entry is never rejected, whatever was analysed before
+    for j in range(ctx.n(6, 40)):
+        val = ["T", "s", "time", "dt", "zz", "_D"][j % 6]
+        opt = ["input_time_symbol", "input_time_symbol", "output_timestep_symbol", "differential_order_symbol"][j % 4]
+        if opt == "differential_order_symbol" and not val.startswith("_"):
+            opt = "input_time_symbol"
+        if opt == "input_time_symbol":
+            pre = {"dynamics": [{"expression": "I_k = exp(-%s / tau)" % val}, {"expression": "V' = -V / tau_m + I_k", "initial_value": "0"}], "options": {opt: val}}
+        else:
+            pre = {"dynamics": [{"expression": "V' = -V / tau_m", "initial_value": "0"}], "options": {opt: val}}
+        name = val if not val.startswith("_") else "q" + val
+        order = 1 + (j % 2)
+        entry = wf_entry(rng, name, order)
+        cases.append({"indict": {"dynamics": [entry]}, "pre_calls": [pre], "kind": "wellformed-after-option-call", "expect": "not-malformed", "order": order, "pos": 0})
     results = pool.run_cases("harness.props.c09", "case_validate", cases, timeout=60, init="_init_worker", deadline=ctx.deadline())
     ops = []
     for case, res in zip(cases, results):
